@@ -138,7 +138,7 @@ def main(argv):
             cases.append(DimCase(kid, dims, order, args, vals))
         kid = 0
         maxk = 4 if ck.tier == "quick" else 6
-        reps = 1 if ck.tier == "quick" else 12
+        reps = 1 if ck.tier == "quick" else 5
         for k in range(1, maxk + 1):
             perms = list(itertools.permutations(range(k)))
             if k > 4:
